@@ -5,9 +5,9 @@ NOTES = ("All checks are property-based tests (pgregory.net/rapid v1.3.0 generat
 ENGINES = [
     {"name": "kvx", "path": "harness/kvx", "serves_properties": ["C06", "C07", "C11", "C12", "C13", "C16", "C17"],
      "kind_free_text": "real kv.DB / Pebble KV driven by rapid generators against the sequential reference model in harness/model"},
-    {"name": "leaderx", "path": "harness/leaderx", "serves_properties": ["C08", "C14", "C15"],
+    {"name": "leaderx", "path": "harness/leaderx", "serves_properties": ["C07", "C08", "C14", "C15"],
      "kind_free_text": "real LeaderController (RF=1, real WAL and Pebble through wrapping factories with gates) driven by rapid state machines"},
-    {"name": "clusterx", "path": "harness/clusterx", "serves_properties": ["C01", "C02", "C03", "C04", "C05"],
+    {"name": "clusterx", "path": "harness/clusterx", "serves_properties": ["C01", "C02", "C03", "C04", "C05", "C06"],
      "kind_free_text": "3-5 real storage nodes + the real coordinator ShardController in one process over a harness-owned wire; generated fault programs; oracles over the recorded history"},
     {"name": "clientx", "path": "harness/clientx", "serves_properties": ["C20", "C18"],
      "kind_free_text": "the real public client over loopback gRPC against scripted fake OxiaClient servers"},
@@ -18,7 +18,7 @@ ENGINES = [
 ]
 
 # properties not (yet) claimed; entries whose id has a check in checks_config.py are dropped automatically
-_PENDING = "check not built yet in this session (planned in DESIGN.md section 9); not a statement that the technique cannot apply"
+_PENDING = "check not built yet (planned in DESIGN.md section 9); not a statement that the technique cannot apply"
 NOT_APPLICABLE = {("C%02d" % i): _PENDING for i in range(1, 21)}
 
 META = {
@@ -154,5 +154,17 @@ META = {
         "level_text": "Hundreds of thousands of generated clusters/policies for the selector and tens of thousands of balancer rounds, each "
                       "checked against a validity predicate (not one expected placement).",
         "level_note": "Anti-affinity uses the weakest reading of multi-label rules.",
+    },
+    "C06": {
+        "engine": "clusterx", "technique": "differential property-based testing across application routes (live, streamed, restarted, snapshot-installed, plain fold)",
+        "design_ref": "DESIGN.md 4.4, 5 C06",
+        "level_text": "Generated rich request sequences on a real 3-node cluster; every replica's full decoded dump compared with a plain in-order fold of the committed log.",
+        "level_note": "The fold uses the real ProcessWrite; notification records compared decoded (map serialization order is not deterministic).",
+    },
+    "C07": {
+        "engine": "leaderx", "technique": "fault-injecting property-based testing (crash image after the k-th batch commit, restart and replay) against a reference fold",
+        "design_ref": "DESIGN.md 4.3, 5 C07",
+        "level_text": "Generated runs with concurrent writers; crash images at drawn commit points compared with the fold of the log prefix, and the restarted node with the fold of the whole log.",
+        "level_note": "Commit-granular crash points; Pebble's internal atomicity and the page cache are trusted.",
     },
 }
